@@ -25,8 +25,8 @@ type crafted struct {
 	// either: the SENDER chose an unusual but self-consistent encoding (not tampering): the receiver
 	// may deliver it or refuse it, but must do one of the two cleanly
 	either bool
-	cbc   bool // applies to the CBC suite
-	gcm   bool // applies to the GCM suite
+	cbc    bool // applies to the CBC suite
+	gcm    bool // applies to the GCM suite
 	// emit sends the crafted record(s); payload is what a valid record would deliver
 	emit    func(q *gmref.Peer) error
 	payload []byte
@@ -244,6 +244,10 @@ func judgeCrafted(c *harness.Ctx, suite uint16, libIsClient bool, prefix int, cr
 	want := append(append([]byte{}, pre...), cr.payload...)
 	if !bytes.Equal(got, want) {
 		c.Violate("delivers-after-bad-record:"+key, fmt.Sprintf("[%s] application read %q, want exactly %q (nothing from the affected record on)", tag, clipB(got, 80), clipB(want, 80)), nil, tag)
+		return
+	}
+	if len(o.Lib.ReadAfterErr) > 0 || o.Lib.ReadRecovered {
+		c.Violate("error-not-sticky:"+key, fmt.Sprintf("[%s] after the fatal error %v further Read calls delivered %q (recovered=%v)", tag, o.Lib.ReadErr, clipB(o.Lib.ReadAfterErr, 40), o.Lib.ReadRecovered), nil, tag)
 		return
 	}
 	if o.Lib.ReadErr == nil || o.Lib.ReadErr == io.EOF {
